@@ -3,7 +3,8 @@
 /tmp/seedout/Cxx to /verif/seeded/Cxx and records what was run."""
 import json, os, shutil, sys, glob
 pid, result, verdict = sys.argv[1], sys.argv[2], sys.argv[3]
-src, dst = f'/tmp/seedout/{pid}', f'/verif/seeded/{pid}'
+src = sys.argv[4] if len(sys.argv) > 4 else f'/tmp/seedout/{pid}'
+dst = f'/verif/seeded/' + (sys.argv[5] if len(sys.argv) > 5 else pid)
 os.makedirs(dst, exist_ok=True)
 for f in glob.glob(src + '/*'):
     if os.path.getsize(f) < 200000 and not f.endswith('.log') and 'fullsuite' not in f and 'full_suite' not in f:
